@@ -2,6 +2,7 @@ package main
 
 import (
 	"fmt"
+	"html/template"
 	"math"
 	"math/big"
 	"reflect"
@@ -164,6 +165,27 @@ func c19groups(n, ln int, variant int) (res [][]int, isErr bool, note string) {
 	}
 	return res, false, "iterator did not finish"
 }
+
+// sequence, map and string types that print themselves
+type c19ip []byte
+
+func (p c19ip) String() string { return "127.000.000.001/32" }
+
+type c19id [4]byte
+
+func (p c19id) String() string { return "id-0000-0000" }
+
+type c19tags map[string]int
+
+func (p c19tags) String() string { return "tags(...)" }
+
+type c19word string
+
+func (p c19word) String() string { return "word:" + string(p) + "!" }
+
+type c19hs []string
+
+func (p c19hs) HTML() template.HTML { return "<ul>...</ul>" }
 
 func init() {
 	register("C19", func(e *Env) {
@@ -504,6 +526,20 @@ func init() {
 			{m2, "(LMap 2%nat)", 2}, {&s3, "(LPtr (LSeq 3%nat))", 3}, {&m2, "(LPtr (LMap 2%nat))", 2},
 			{&str, "(LPtr (LStr " + cqBytes(str) + "))", len(str)}, {&arr, "(LPtr (LSeq 4%nat))", 4},
 			{nilp, "LNilPtr", -1}, {1, "LOther", -1}, {true, "LOther", -1}, {struct{}{}, "LOther", -1},
+			// named sequence / map / string types that also print themselves, by value and by pointer: the
+			// length is the Go length, whatever String() or HTML() would say
+			{c19ip{127, 0, 0, 1}, "(LSeq 4%nat)", 4}, {c19id{1, 2, 3, 4}, "(LSeq 4%nat)", 4}, {c19tags{"a": 1}, "(LMap 1%nat)", 1}, {c19word("héllo"), "(LStr " + cqBytes("héllo") + ")", len("héllo")},
+			{&c19ip{10, 0, 0, 1}, "(LPtr (LSeq 4%nat))", 4}, {&c19id{}, "(LPtr (LSeq 4%nat))", 4}, {&c19tags{"a": 1, "b": 2}, "(LPtr (LMap 2%nat))", 2}, {c19ip{}, "(LSeq 0%nat)", 0},
+			{c19hs{"<a>", "<b>"}, "(LSeq 2%nat)", 2}, {template.HTML("<i>"), "(LStr " + cqBytes("<i>") + ")", 3}, {[]fmt.Stringer{c19word("x")}, "(LSeq 1%nat)", 1},
+		}
+		// the same through the template helper
+		for _, t := range [][2]string{{"ip", "4"}, {"id", "4"}, {"tags", "1"}, {"word", "6"}, {"pip", "4"}, {"hs", "2"}} {
+			o := runRenderExtra(RCase{Tmpl: "<%= len(" + t[0] + ") %>"}, map[string]interface{}{"ip": c19ip{127, 0, 0, 1}, "id": c19id{}, "tags": c19tags{"a": 1}, "word": c19word("héllo"), "pip": &c19ip{1, 2, 3, 4}, "hs": c19hs{"<a>", "<b>"}})
+			e.rep.Evaluations++
+			e.Count("len")
+			if o.Class != "OK" || o.Out != t[1] {
+				e.Violate("c19-len", fmt.Sprintf("<%%= len(%s) %%> rendered %q (%s %s), Go length is %s", t[0], o.Out, o.Class, firstLine(o.Msg), t[1]), t[0])
+			}
 		}
 		for i, c := range lcs {
 			got, panicked := func() (n int, p bool) {
